@@ -42,6 +42,15 @@ var gmmMsg = unhex("7e004179000d0102f839f0ff000000000010325476" + "2e04f0f0f0f0"
 // PDU session establishment request with integrity protection maximum data rate and PDU session type
 var gsmMsg = unhex("2e0101c1ffff91a1")
 
+// largeMsg: DL NAS TRANSPORT (payload container type 1, LV-E payload container of n octets).
+func largeMsg(n int) []byte {
+	b := []byte{0x7e, 0x00, 0x68, 0x01, byte(n >> 8), byte(n)}
+	for i := 0; i < n; i++ {
+		b = append(b, byte(i*3+1))
+	}
+	return b
+}
+
 func key(salt int) (k [16]byte) {
 	for i := range k {
 		k[i] = byte(salt*31 + i*7 + 1)
@@ -70,6 +79,10 @@ func decodeEncode(raw []byte, salt int) string {
 var Ops = []Op{
 	{"gmm-decode-encode", func(s int) string { return decodeEncode(gmmMsg, s) }},
 	{"gsm-decode-encode", func(s int) string { return decodeEncode(gsmMsg, s) }},
+	// large messages (a size hint, a pool or a scratch area that an encoder keeps and adapts to the largest message so
+	// far): DL NAS TRANSPORT with payload containers of 700 and 1900 octets
+	{"gmm-decode-encode-large-a", func(s int) string { return decodeEncode(largeMsg(700+s%7), s) }},
+	{"gmm-decode-encode-large-b", func(s int) string { return decodeEncode(largeMsg(1900+s%5), s) }},
 	{"decode-garbage", func(s int) string {
 		in := append([]byte{0x7e, 0x00, 0x41}, msg(s, 9)...)
 		m := nas.NewMessage()
